@@ -75,7 +75,11 @@ def make_weights(grammar, w):
     for S in grammar.rules:
         probs[S] = {}
         for i, P in enumerate(grammar.rules[S]):
-            if kind == "deep_spread":
+            if kind == "underflow":
+                # function rules so unlikely that program probabilities underflow to 0.0 in binary64
+                from synth.syntax.type_system import Arrow
+                x = 1e-120 if isinstance(getattr(P, "type", None), Arrow) and i % 2 == 0 else 1.0
+            elif kind == "deep_spread":
                 # uniform everywhere except on the deepest non-terminals: 1 : 10^3 : 10^6
                 x = 1000.0 ** (i % 3) if nt_depth(S) == deepest else 1.0
             elif kind == "uniform":
